@@ -362,6 +362,28 @@ func init() {
 				emit(c14DeepParScenario(r, wseed+uint64(i)), "/deep")
 			}
 		}
+		// early readers on a shared cache (see c14LateReaderScenario): a head that reaches a client through a cached
+		// record is a head the machine must accept like one from the network; last and from a generator of their own.
+		// Only the latest-head trace: clPcTrace linearises the once-cache of a client from the start/ret events of
+		// scheduled goroutines, and these scenarios run sequential lookups on the same client instance beforehand
+		// (a later goroutine is then served by an entry whose fetch the extraction does not see).
+		r2 := &Rand{s: wseed*0x9e3779b97f4a7c15 + 0x1a7d}
+		for i := 0; i < n/10; i++ {
+			line, _ := c14LateReaderScenario(r2, wseed+uint64(i%5))
+			sc, ok := clParseScenario(strings.Fields(line)[1:])
+			if !ok {
+				continue
+			}
+			out := clRunScenario(sc)
+			if out.bad || out.hang {
+				continue
+			}
+			if l, ok := clLatestTrace(out, false); ok {
+				g.Emit(l, strings.Contains(l, ".c") || strings.Count(l, "b.") > 3, "trace/late-reader")
+			} else {
+				g.st.Tags["trace-not-expressible"]++
+			}
+		}
 	}
 	c13GenTraces = func(g *Gen, n int) {
 		if n <= 0 {
